@@ -209,7 +209,7 @@ def run_shard(spec):
             continue
         acc.count("mosek_multipliers_checked", cinfo.get("n_ineq", 0) + cinfo.get("n_eq", 0) + cinfo.get("n_lmi", 0))
         for f in cf + pf:
-            if f["key"] == "identity_open_in_span_of_lmi_entry_symmetries":
+            if f["key"] in oracles.C01_KNOWN_KEYS:
                 acc.count("c01_known_mechanism_seen")
                 continue
             if f["grade"] == "violated":
